@@ -7,15 +7,15 @@ VARIABLE b
 
 L(n) == FromInt(n)
 Big(k) == <<0, 0, k, 0, 0>>                   \* k * 2^30
-Bps == IF Deep THEN {0, 256, 512, 513, 1024, 4096, 8192, 32768} ELSE {256, 512, 4096, 8192}
-Spc == IF Deep THEN {0, 1, 2, 3, 64, 128, 129, 255} ELSE {0, 1, 3, 128}
-NFats == IF Deep THEN {0, 1, 2, 3, 255} ELSE {0, 2, 255}
-Spf16 == IF Deep THEN {0, 1, 9, 32, 65535} ELSE {0, 9, 65535}
+Bps == IF Deep THEN {256, 512, 1024, 4096, 8192, 32768} ELSE {256, 512, 4096, 8192}
+Spc == IF Deep THEN {0, 1, 2, 3, 128, 255} ELSE {0, 1, 3, 128}
+NFats == IF Deep THEN {0, 1, 2, 255} ELSE {0, 2, 255}
+Spf16 == IF Deep THEN {0, 1, 9, 65535} ELSE {0, 9, 65535}
 Spf32 == {Zero, L(1), L(600), L(2100000), Big(2), <<32767, 32767, 3, 0, 0>>}
-Ts16 == IF Deep THEN {0, 100, 4300, 65535} ELSE {0, 4300}
+Ts16 == IF Deep THEN {0, 4300, 65535} ELSE {0, 4300}
 Ts32 == {Zero, L(100), L(4300), L(70000), L(70100), L(300000000), <<32767, 32767, 3, 0, 0>>}
-RootN == IF Deep THEN {0, 1, 16, 512, 65535} ELSE {0, 512}
-Rsvd == IF Deep THEN {0, 1, 6, 32, 65535} ELSE {0, 1, 32}
+RootN == IF Deep THEN {0, 1, 512, 65535} ELSE {0, 512}
+Rsvd == IF Deep THEN {0, 1, 32, 65535} ELSE {0, 1, 32}
 Fis == {1, 40}
 Bks == {6, 40}
 RootC == {Zero, L(1), L(2), L(69000), L(268435456), <<32767, 32767, 3, 0, 0>>}
